@@ -43,8 +43,11 @@ class Node:
 
 
 class Deriv:
-    def __init__(self, parser_cls, max_tokens=3, cap=60, alts=6):
+    def __init__(self, parser_cls, max_tokens=3, cap=60, alts=6, prefer=None):
         self.parser_cls = parser_cls
+        # prefer: {terminal: cost below 1} - derivations through these terminals win ties against keyword terminals (a name position then
+        # derives an ID rather than a keyword that may stand for a name)
+        self.prefer = prefer or {}
         g = parser_cls._grammar
         self.prods = list(g.Productions[1:])
         self.terms = set(g.Terminals)
@@ -65,15 +68,17 @@ class Deriv:
         while changed:
             changed = False
             for p in self.prods:
-                kids, n, ok = [], 0, True
+                kids, n, cost, ok = [], 0, 0.0, True
                 for s in p.prod:
                     s = str(s)
                     if s in self.terms:
                         kids.append(s)
                         n += 1
+                        cost += self.prefer.get(s, 1.0)
                     elif s in best:
                         kids.append(best[s][1])
                         n += best[s][0]
+                        cost += best[s][3]
                     else:
                         ok = False
                         break
@@ -81,8 +86,8 @@ class Deriv:
                     node = Node(p, kids)
                     # ties: prefer the derivation with fewer quoted-string tokens (identifier -> id -> ID before identifier -> "..")
                     pen = sum(1 for t in node.tokens() if t in ('QUOTE_STRING', 'DQUOTE_STRING'))
-                    if p.name not in best or (n, pen) < (best[p.name][0], best[p.name][2]):
-                        best[p.name] = (n, node, pen)
+                    if p.name not in best or (cost, pen) < (best[p.name][3] - 1e-9, best[p.name][2]) or (abs(cost - best[p.name][3]) < 1e-9 and pen < best[p.name][2]):
+                        best[p.name] = (n, node, pen, cost)
                         changed = True
         self._best = best
 
